@@ -1,4 +1,5 @@
 import TmcgProofs.DkgAgree
+import TmcgProofs.DkgRunAgree
 import TmcgProofs.DkgRun
 import TmcgProofs.Dkg
 import TmcgProofs.DkgSteps
@@ -47,6 +48,26 @@ theorem honest_in_qual' (hG : ValidGrp G) (n t : Nat) (ins : List PartyIn) (hn :
     (hPi : (runGen G n t ins)[i]? = some Pi) :
     j ∈ Pi.st.qual :=
   DkgP.honest_in_qual' hG n t ins hn ht hn64 hf hc i j hi hj Pi hPi
+
+/-- "each honest party's share matches the public verification values" for whole runs: an honest
+    party that finished `Generate` with `true` and without any reconstruction (`racc = []`) holds a
+    share `x_i` with `g^{x_i} = v_i` — the first test of `CheckKey()` succeeds -/
+theorem share_matches_vk_run (hG : ValidGrp G) (n t : Nat) (ins : List PartyIn) (hn : ins.length = n)
+    (ht : 2 * t < n) (hn64 : n < 2 ^ 64) (hf : n - (honestIdx ins).length ≤ t)
+    (hc : ∀ i ∈ honestIdx ins, goodCoins G t (ins.getD i ⟨[], [], {}, {}⟩))
+    (i : Nat) (hi : i ∈ honestIdx ins) (Pi : Party GenSt)
+    (hPi : (runGen G n t ins)[i]? = some Pi) (hret : Pi.status = .ret true) (hracc : Pi.st.racc = []) :
+    ∃ r, fspowm G.tabG G.g Pi.st.x G.p = .ok r ∧ r = getI Pi.st.vi i :=
+  DkgP.share_matches_vk_run hG n t ins hn ht hn64 hf hc i hi Pi hPi hret hracc
+
+/-- under the same hypotheses `CheckKey()` returns `true` -/
+theorem checkKey_run (hG : ValidGrp G) (n t : Nat) (ins : List PartyIn) (hn : ins.length = n)
+    (ht : 2 * t < n) (hn64 : n < 2 ^ 64) (hf : n - (honestIdx ins).length ≤ t)
+    (hc : ∀ i ∈ honestIdx ins, goodCoins G t (ins.getD i ⟨[], [], {}, {}⟩))
+    (i : Nat) (hi : i ∈ honestIdx ins) (Pi : Party GenSt)
+    (hPi : (runGen G n t ins)[i]? = some Pi) (hret : Pi.status = .ret true) (hracc : Pi.st.racc = []) :
+    genCheckKey G Pi.st = .ok true :=
+  DkgP.checkKey_run hG n t ins hn ht hn64 hf hc i hi Pi hPi hret hracc
 
 /-- equation (2) of PedersenVSS / (4) of the DKG holds for the shares of an honest dealer: the left
     side the receiver computes from `(f(x), f'(x))` equals the right side it computes from the
